@@ -18,7 +18,7 @@ import (
 // block is valid and must be accepted (as a side block), on pruning and
 // archive nodes; the usual invariants are judged after every call.
 func TestLongLightSideBranch(t *testing.T) {
-	ev.Check(t, ev.N(2, 24), func(t *rapid.T) {
+	ev.Check(t, ev.N(12, 40), func(t *rapid.T) {
 		nc := gen.ConfigByName("steep")
 		g := gen.Genesis(nc.Config, 0)
 		b, err := gen.NewBuilder(g)
@@ -57,7 +57,7 @@ func TestLongLightSideBranch(t *testing.T) {
 		for _, n := range append(append(gen.Batch{}, long...), short...) {
 			byHash[n.Block.Hash()] = n
 		}
-		cacheKind := rapid.SampledFrom([]string{"pruning", "pruning", "archive"}).Draw(t, "cache")
+		cacheKind := rapid.SampledFrom([]string{"pruning", "pruning", "pruning", "pruning", "archive"}).Draw(t, "cache")
 		cache := gen.Pruning()
 		if cacheKind == "archive" {
 			cache = gen.Archive()
@@ -96,6 +96,22 @@ func TestLongLightSideBranch(t *testing.T) {
 		if head == nil || head.TD.Cmp(short[len(short)-1].TD) < 0 {
 			t.Fatalf("head TD decreased")
 		}
-		ev.Case(true, []byte(fmt.Sprintf("longside:%d:%d:%d:%s", longLen, shortLen, firstPart, cacheKind)), "long-light-side-branch", "shorter-heavier-wins", "cache:"+cacheKind)
+		// the head's own branch goes on: with the side branch so far above it, a pruning node has
+		// dropped the head's state from memory and re-executes its own branch to build on it
+		tip := short[len(short)-1]
+		for i := 0; i < 2; i++ {
+			tip = mk(tip, 1, &idx)
+			byHash[tip.Block.Hash()] = tip
+			if _, err := n.Chain.InsertChain(gen.Batch{tip}.Blocks()); err != nil {
+				t.Fatalf("the block that extends the head (height %d, td %v) was refused: %v (%s node, side branch up to height %d)", tip.Height, tip.TD, err, cacheKind, longLen)
+			}
+			if got := byHash[n.Chain.CurrentBlock().Hash()]; got != tip {
+				t.Fatalf("after the block that extends the head (height %d, td %v) was imported the head is at height %d", tip.Height, tip.TD, n.Chain.CurrentBlock().NumberU64())
+			}
+			if td := n.Chain.GetTd(tip.Block.Hash(), tip.Height); td == nil || td.Cmp(tip.TD) != 0 {
+				t.Fatalf("stored TD of the extending block = %v, want %v", td, tip.TD)
+			}
+		}
+		ev.Case(true, []byte(fmt.Sprintf("longside:%d:%d:%d:%s", longLen, shortLen, firstPart, cacheKind)), "long-light-side-branch", "shorter-heavier-wins", "head-extended-under-far-side-branch", "cache:"+cacheKind)
 	})
 }
